@@ -13,8 +13,9 @@ import (
 	"fmt"
 	"os"
 	"reflect"
-	"strings"
 	"testing"
+
+	"github.com/cloudwego/eino/schema"
 
 	"verifharness/internal/mon"
 )
@@ -214,9 +215,31 @@ func blackBoxCase(rep *mon.Reporter, rng *mon.Rand, prof profile) {
 		prof.budget = 30
 	}
 	c := bbCase{dag: rng.Bool()}
-	c.stateV, c.tV, _ = genPair(rng.Uint64(), prof)
-	c.stateW, c.tW, _ = genPair(rng.Uint64(), prof)
-	c.pendIn, c.tIn, _ = genPair(rng.Uint64(), prof)
+	if rng.Intn(3) == 0 {
+		// eino's own types: a conversation as state, a message written by the node,
+		// a message (or several) as pending input
+		rep.Count("bb_message_cases", 1)
+		prof.allowSchema = true
+		prof.maxDepth = max(prof.maxDepth, 4)
+		prof.budget = max(prof.budget, 24)
+		pick := func(ts ...reflect.Type) reflect.Type { return ts[rng.Intn(len(ts))] }
+		c.stateV, c.tV = genPairT(rng.Uint64(), prof, pick(rt[[]*schema.Message](), rt[map[string][]*schema.Message](), rt[[]schema.Message](), rt[map[string]any]()))
+		c.stateW, c.tW = genPairT(rng.Uint64(), prof, pick(rt[*schema.Message](), rt[schema.Message](), rt[*schema.ResponseMeta](), rt[[]*schema.Document](), rt[[]schema.ChatMessagePart]()))
+		c.pendIn, c.tIn = genPairT(rng.Uint64(), prof, pick(rt[*schema.Message](), rt[[]*schema.Message](), rt[*schema.Message](), rt[map[string]any]()))
+	} else {
+		c.stateV, c.tV, _ = genPair(rng.Uint64(), prof)
+		c.stateW, c.tW, _ = genPair(rng.Uint64(), prof)
+		c.pendIn, c.tIn, _ = genPair(rng.Uint64(), prof)
+	}
+	for _, x := range []any{c.tV, c.tW, c.tIn} {
+		var st vstats
+		if x != nil {
+			st.walk(reflect.ValueOf(x), 0)
+		}
+		for _, k := range mon.SortedKeys(st.schema) {
+			rep.Count("bb_schema_structs/"+k, int64(st.schema[k]))
+		}
+	}
 	if c.pendIn == nil {
 		// a nil node output is not a value the graph can route; keep the slot used
 		c.pendIn, c.tIn = "x", "x"
@@ -239,11 +262,39 @@ func blackBoxCase(rep *mon.Reporter, rng *mon.Rand, prof profile) {
 	desc := fmt.Sprintf("state.V=%s | state.W=%s | pending-input=%s", clip(renderAny(c.tV), 300), clip(renderAny(c.tW), 300), clip(renderAny(c.tIn), 300))
 
 	switch r.class {
-	case bbOK, bbFirstErr, bbResumeErr:
-		// fine: restored exactly, or loud
-		if r.class == bbOK {
-			rep.NonTrivial("bb:" + desc)
+	case bbOK:
+		rep.NonTrivial("bb:" + desc)
+	case bbFirstErr, bbResumeErr:
+		// loud: fine, unless everything the checkpoint had to carry is inside the universe
+		for _, x := range values {
+			if x.v != nil && valueIn(x.v) != "" {
+				rep.Count("bb_error_value_outside_universe", 1)
+				return
+			}
 		}
+		for _, x := range values {
+			var tests []any
+			if x.v != nil {
+				tests = append(tests, x.v)
+			}
+			tests = append(tests, &bbState{V: x.v})
+			for _, tv := range tests {
+				res := roundtrip(tv, tv)
+				if res.violation() {
+					cl := classify(tv, res)
+					w := mkWitness("checkpoint (black box, "+x.name+")", tv, res, &cl)
+					rep.Violation(cl.signature, r.class+": "+r.why+"\n  "+desc, w)
+					rep.Count("violation_class/bb:"+cl.signature, 1)
+					return
+				}
+			}
+		}
+		at := "at-interrupt"
+		if r.class == bbResumeErr {
+			at = "at-resume"
+		}
+		rep.Violation("C12/blackbox/error-for-supported-value/"+at, r.class+": "+r.why+" although all three values are inside the universe and the serializer alone handles them\n  "+desc,
+			map[string]any{"values": desc})
 	case bbBuildErr, bbNoInterrupt:
 		rep.Inconclusive("black-box graph did not behave as a harness expects: " + r.class + ": " + r.why)
 	case bbDifferent:
